@@ -30,16 +30,24 @@ type scen struct {
 	committers int
 	readers    int
 	iter       bool // readers also iterate
+	window     int  // >0: the oracle's watermarks get a slot window of this size after the first commit
+	prep       int  // additional sequential commits before the clients start (moves the timestamps towards the window end)
 }
 
 func scenarios(thorough bool) []scen {
+	// quick: the two scenarios that subsume the others' behaviours get the whole budget
 	s := []scen{
-		{"1c+1r", 1, 1, false},
-		{"2c+1r", 2, 1, false},
-		{"1c+1r-iter", 1, 1, true},
+		{"2c+1r", 2, 1, false, 0, 0},
+		{"1c+1r-iter", 1, 1, true, 0, 0},
 	}
 	if thorough {
-		s = append(s, scen{"1c+2r", 1, 2, false}, scen{"2c+2r", 2, 2, false})
+		s = append(s,
+			scen{"1c+1r", 1, 1, false, 0, 0},
+			// 4-slot watermark windows for timestamps 2..5; the committers get 5 and 6: the second
+			// commit timestamp crosses the window end (rebuild) while the first may still be pending
+			scen{"2c+1r-window4", 2, 1, false, 4, 3},
+			scen{"1c+2r", 1, 2, false, 0, 0}, scen{"2c+2r", 2, 2, false, 0, 0},
+			scen{"2c+1r-window4-prep2", 2, 1, false, 4, 2}, scen{"1c+2r-window2", 1, 2, false, 2, 1})
 	}
 	return s
 }
@@ -78,6 +86,20 @@ func setupFor(sc scen, base string) func() *schedmc.Exec {
 			if err := txn.Commit(); err != nil {
 				panic(err)
 			}
+			if sc.window > 0 {
+				db.VerifSmallOracleWindows(sc.window)
+			}
+			if os.Getenv("VERIF_DEBUG") != "" {
+				fmt.Println("oracle after window set:", db.VerifOracleState())
+			}
+			for i := 0; i < sc.prep; i++ {
+				txn := db.NewTransaction(true)
+				_ = txn.Set([]byte("a"), []byte("0"))
+				_ = txn.Set([]byte("b"), []byte("0"))
+				if err := txn.Commit(); err != nil {
+					panic(err)
+				}
+			}
 		}
 		for c := 0; c < sc.committers; c++ {
 			tag := fmt.Sprint(c + 1)
@@ -109,6 +131,9 @@ func setupFor(sc scen, base string) func() *schedmc.Exec {
 			})
 		}
 		s.AfterClients = func(db *NoKV.DB) {
+			if os.Getenv("VERIF_DEBUG") != "" {
+				fmt.Println("oracle after clients:", db.VerifOracleState())
+			}
 			versionOf = map[string]uint64{}
 			for _, key := range []string{"a", "b"} {
 				// the commit version of a transaction is the smallest probe version at which its
@@ -207,12 +232,38 @@ func main() {
 		vr.Fatalf("unknown harness %q", rp.Harness)
 	}
 	scs := scenarios(r.Thorough())
+	if only := os.Getenv("VERIF_ONLY_SCEN"); only != "" { // debugging aid
+		var keep []scen
+		for _, sc := range scs {
+			if sc.name == only {
+				keep = append(keep, sc)
+			}
+		}
+		scs = keep
+	}
 	basedir := r.Scratch()
 	total := r.RunSharded(vr.Workers(), func(sh vr.ShardInfo, p *vr.Partial) {
 		dir := fmt.Sprintf("%s/w%d", basedir, sh.Index)
+		p.Add("workers", 1)
 		for si, sc := range scs {
 			sub := vr.NewPartial()
-			schedmc.Explore(setupFor(sc, dir), opts(sc.name), sh, sub, r.Share(si, len(scs)))
+			// iterative context bounding: all schedules with 0 preemptions, then <=1, ... up to the
+			// bound, so that a budget hit still leaves the lower bounds enumerated completely and
+			// the counterexample with the fewest preemptions is found first
+			expired := r.Share(si, len(scs))
+			for b := 0; b <= bound; b++ {
+				o := opts(sc.name)
+				o.Bound = b
+				one := vr.NewPartial()
+				schedmc.Explore(setupFor(sc, dir), o, sh, one, expired)
+				if !expired() {
+					one.Add(fmt.Sprintf("bound_done:%d:%s", b, sc.name), 1)
+				}
+				sub.Merge(one)
+				if len(one.Violations) > 0 || expired() {
+					break
+				}
+			}
 			for k := range sub.Violations {
 				v := &sub.Violations[k]
 				v.Sig = v.Sig[strings.Index(v.Sig, ": ")+2:]
@@ -225,21 +276,30 @@ func main() {
 	})
 	r.RequireOutcomes(total.Card("outcomes"), 3)
 	var names []string
+	completed := map[string]int{} // scenario -> highest preemption bound enumerated completely by every worker (-1: none)
 	for _, sc := range scs {
 		names = append(names, sc.name)
+		completed[sc.name] = -1
+		for b := 0; b <= bound; b++ {
+			if total.Counters["workers"] > 0 && total.Counters[fmt.Sprintf("bound_done:%d:%s", b, sc.name)] == total.Counters["workers"] {
+				completed[sc.name] = b
+			} else {
+				break
+			}
+		}
 	}
 	r.Finish(vr.Coverage{
 		Level:       "model_checking",
 		Evaluations: total.Counters["executions"],
 		Distinct:    total.Card("outcomes"),
-		Rule:        "every schedule with at most `bound` preemptions of 1-2 committing transactions (each writes a and b), 1-2 read-only transactions (get a, get b, get a, get b, optional iteration) and the commit worker on a fresh real DB; after the run the commit versions are read back and every reader must have seen exactly the newest commit at or below its read timestamp on every read; distinct = distinct (readTs, reads, commit versions) outcomes",
+		Rule:        "iterative context bounding (0, 1, ... `bound` preemptions): every schedule with at most `bound` preemptions of 1-2 committing transactions (each writes a and b), 1-2 read-only transactions (get a, get b, get a, get b, optional iteration) and the commit worker on a fresh real DB; after the run the commit versions are read back and every reader must have seen exactly the newest commit at or below its read timestamp on every read; distinct = distinct (readTs, reads, commit versions) outcomes",
 		Samples:     total.SamplesAny(),
 		States:      total.Counters["steps"],
 		Transitions: total.Counters["steps"],
 		Validated:   total.Counters["executions"],
 		Exhaustive:  !total.TimedOut,
 		Outcomes:    total.Card("outcomes"),
-		Bounds:      map[string]any{"preemption_bound": bound, "scenarios": names},
+		Bounds:      map[string]any{"preemption_bound": bound, "scenarios": names, "preemption_bound_completed_per_scenario": completed},
 		Extra:       map[string]any{"schedules": total.Counters["executions"], "max_decisions_per_schedule": total.Counters["max_decisions"]},
 		Assumptions: []string{"instrumented files: txn.go and utils/watermarker.go; the commit pipeline below sendToWriteCh (queue, commit worker, LSM, WAL) is one atomic step of the committing thread", "sequentially consistent atomics"},
 	})
